@@ -19,7 +19,7 @@ import (
 
 var c08Keys = []string{"200", "2XX", "404", "4XX", "default"}
 var c08Statuses = []int{200, 201, 204, 301, 304, 307, 308, 400, 404, 500, 99, 600}
-var c08Bodies = []string{"valid", "other-entry-marker", "with-writeOnly", "with-readOnly", "wrong-type", "none", "malformed-json", "without-marker"}
+var c08Bodies = []string{"valid", "other-entry-marker", "with-writeOnly", "with-readOnly", "wrong-type", "none", "malformed-json", "without-marker", "without-required-readOnly"}
 var c08ContentTypes = []string{"application/json", "application/json; charset=utf-8", "text/plain", ""}
 
 type c08Case struct {
@@ -34,17 +34,21 @@ type c08Case struct {
 	body             string
 	inclStatus       bool
 	exBody, exWO, me bool
+	// history: before the response is validated, a request body was validated against the very same schema object (as
+	// happens when one component schema serves the request and the response)
+	priorRequest bool
 }
 
 func (c c08Case) sig() string {
-	return fmt.Sprintf("responses=%v status=%d head=%v headers{required:%v,optional:%v%s} content=%v response{X-Req:%d,X-Opt:%d,type=%q,body=%s} IncludeResponseStatus=%v ExcludeResponseBody=%v ExcludeWriteOnlyValidations=%v MultiError=%v",
-		c.keys, c.status, c.head, c.hdrReq, c.hdrOpt, map[bool]string{false: "", true: "(exploded object)"}[c.optObj], c.withContent, c.reqVal, c.optVal, c.ct, c.body, c.inclStatus, c.exBody, c.exWO, c.me)
+	return fmt.Sprintf("responses=%v status=%d head=%v headers{required:%v,optional:%v%s} content=%v response{X-Req:%d,X-Opt:%d,type=%q,body=%s} IncludeResponseStatus=%v ExcludeResponseBody=%v ExcludeWriteOnlyValidations=%v MultiError=%v after-request-on-same-schema=%v",
+		c.keys, c.status, c.head, c.hdrReq, c.hdrOpt, map[bool]string{false: "", true: "(exploded object)"}[c.optObj], c.withContent, c.reqVal, c.optVal, c.ct, c.body, c.inclStatus, c.exBody, c.exWO, c.me, c.priorRequest)
 }
 
 func c08BodySchema(marker string) map[string]any {
-	return m("type", "object", "properties", m("k", m("type", "string", "enum", l(marker)), "w", m("type", "string", "writeOnly", true), "w2", m("type", "string", "writeOnly", true), "r", m("type", "string", "readOnly", true), "n", m("type", "integer")),
-		// the marker is required between two required writeOnly properties (which a response need not and must not carry)
-		"required", l("w", "k", "w2"))
+	return m("type", "object", "properties", m("k", m("type", "string", "enum", l(marker)), "w", m("type", "string", "writeOnly", true), "w2", m("type", "string", "writeOnly", true), "r", m("type", "string", "readOnly", true), "r2", m("type", "string", "readOnly", true), "n", m("type", "integer")),
+		// a required readOnly property first (a response must carry it, a request need not), then the marker between two required
+		// writeOnly properties (which a response need not and must not carry)
+		"required", l("r2", "w", "k", "w2"))
 }
 
 func (c c08Case) document() map[string]any {
@@ -104,7 +108,7 @@ func init() {
 	core.Register(&core.Check{
 		ID: "C08",
 		Rule: "responses maps: every non-empty subset of <=3 keys of {200, 2XX, 404, 4XX, default}, each definition accepting only a body that carries its own key x status in {200,201,204,301,304,307,308,400,404,500,99,600} x GET/HEAD x declared headers {required integer, optional integer array, a Content-Type entry} x header values absent/valid/invalid " +
-			"x content declared or not x response Content-Type {json, json+charset, text/plain, absent} x body {valid, another entry's marker, with a writeOnly property, with a readOnly property, wrong type, none} x IncludeResponseStatus x ExcludeResponseBody x ExcludeWriteOnlyValidations x MultiError. " +
+			"x content declared or not x response Content-Type {json, json+charset, text/plain, absent} x body {valid, another entry's marker, with a writeOnly property, with a readOnly property, wrong type, none} x IncludeResponseStatus x ExcludeResponseBody x ExcludeWriteOnlyValidations x MultiError x (for three bodies) a request body validated against the very same schema object beforehand. " +
 			"Model: status selection (exact, class, default), header presence/validity, content selection, evaluator in response reading; afterwards the body must still be readable in full. non-trivial = a definition is selected and the response is checked",
 		Assumptions: []string{
 			"selection model mc/ref/content.go SelectStatus/SelectContent; evaluator in response reading (writeOnly forbidden and not required, readOnly allowed); ExcludeWriteOnlyValidations lifts only the presence rule",
@@ -155,6 +159,9 @@ func init() {
 					c.me = true
 				}
 			}
+			if (c.body == "without-required-readOnly" || c.body == "without-marker" || c.body == "valid") && !c.hdrReq && !c.hdrOpt && c.withContent {
+				c.priorRequest = x.Bool() // (every such execution loads a document of its own: kept to the header-free cases)
+			}
 			if !r.Own(x) {
 				return
 			}
@@ -170,6 +177,9 @@ func init() {
 			}
 			dk := fmt.Sprint(c.keys, c.hdrReq, c.hdrOpt, c.optObj, c.withContent)
 			ent, okc := c08Docs[dk]
+			if c.priorRequest {
+				okc = false // a document of its own: the earlier validation must not reach other executions
+			}
 			if !okc {
 				dj, _ := json.Marshal(c.document())
 				d, err := openapi3.NewLoader().LoadFromData(dj)
@@ -177,7 +187,9 @@ func init() {
 					panic(err)
 				}
 				ent = c08Doc{d, dj}
-				c08Docs[dk] = ent
+				if !c.priorRequest {
+					c08Docs[dk] = ent
+				}
 			}
 			doc, docJSON := ent.doc, ent.json
 			sig := c.sig()
@@ -224,6 +236,11 @@ func init() {
 				bodyVal = m("k", sel, "n", "x")
 			case "without-marker":
 				bodyVal = m("n", 1.0) // the required marker is missing (as are the required writeOnly properties, legitimately)
+			case "without-required-readOnly":
+				bodyVal = m("k", sel)
+			}
+			if bodyVal != nil && c.body != "without-required-readOnly" {
+				bodyVal["r2"] = "ro" // the required readOnly property
 			}
 			var bodyBytes []byte
 			if bodyVal != nil {
@@ -231,6 +248,16 @@ func init() {
 			}
 			if c.body == "malformed-json" {
 				bodyBytes = []byte(`{"k":"` + sel + `",`)
+			}
+			if c.priorRequest {
+				// every response definition's schema first serves a request body (valid as a request: no readOnly property, the writeOnly ones present)
+				for _, k := range c.keys {
+					if rr := op.Responses.Value(k); rr != nil && rr.Value != nil {
+						if mt := rr.Value.Content.Get("application/json"); mt != nil && mt.Schema != nil && mt.Schema.Value != nil {
+							_ = mt.Schema.Value.VisitJSON(map[string]any{"k": k, "w": "x", "w2": "y"}, openapi3.VisitAsRequest())
+						}
+					}
+				}
 			}
 			opts := &openapi3filter.Options{IncludeResponseStatus: c.inclStatus, ExcludeResponseBody: c.exBody, ExcludeWriteOnlyValidations: c.exWO, MultiError: c.me}
 			in := &openapi3filter.ResponseValidationInput{
